@@ -283,6 +283,11 @@ def make(rng, kind=None):
         else:
             root = rng.bytes(32) if depth else None
         q, parity, dtweaked = ecc.taproot_tweak(KEYS[ik], root)
+        internal_x = ecc.pub_xonly(KEYS[ik])
+        if kind == "tapscript" and rng.chance(15):
+            # a well-known constant as internal key: the BIP341 point nobody knows the secret of (script path only)
+            internal_x = ecc.NUMS_H
+            q, parity = ecc.taproot_tweak_pub(internal_x, root)
         spk = bytes([0x51, 0x20]) + q
         fund = funding(spk)
         tx = spending_skeleton(fund, rng)
@@ -297,7 +302,7 @@ def make(rng, kind=None):
                 cp = 0 if ss.codesep_first else 0xffffffff
                 s = ecc.schnorr_sign(KEYS[ki], sighash_taproot(tx, 0, [fund.vout[0]], ht, annex, lh, cp))
                 sigs.append(s + (bytes([ht]) if ht else b""))
-            control = bytes([0xc0 | parity]) + ecc.pub_xonly(KEYS[ik]) + b"".join(path)
+            control = bytes([0xc0 | parity]) + internal_x + b"".join(path)
             tx.vin[0].witness = list(reversed(sigs)) + [leaf, control]
         if annex is not None:
             tx.vin[0].witness.append(annex)
